@@ -12,7 +12,7 @@ use neurons::tensor::{Shape, Tensor};
 
 pub fn meta(ctx: &Ctx) -> Meta {
     Meta {
-        rule: format!("every seed p in 1..m-1 (m = 2^31-1; = every generator state once) x intervals {} for generate: value in [min,max] and within rounding of the reference minstd value; real shuffle from every state for lengths {}; bands of 2^17 states at both ends of the state range: shuffle lengths 1..8,10,100,1000 and an interval grid incl. non-dyadic bounds; stride-4099 cover of all states for shuffle lengths 1..8; lengths 4096, 4097, 5000, 10^4, 65537 from the 128 extreme states and a sparse cover; lengths 2^24+3 and 2^24+4 (beyond exact usize -> f32 conversion) from the extreme states; degenerate, negative, subnormal (incl. bounds 1, 3, 5, 9 units of 2^-149) and wider-than-MAX intervals ((-3e38,3e38), (MIN,MAX), (0,MAX), ..) from the seed list and the extreme states; seed list incl. 0, m, 2^32, 2^64/48271+-2, 1.7e18, 2^63, u64::MAX; all 70 interleavings of 4+4 calls on two equal-seed generators; Tensor::random over all shapes of rank 1-4 with extents <= 3. Non-trivial = every state is a distinct case", if ctx.tier.thorough() { "{(0,1),(-1,1),(0,2),(-0.5,0.5)}" } else { "{(0,1),(-1,1)}" }, if ctx.tier.thorough() { "1..8" } else { "1..2" }),
+        rule: format!("every seed p in 1..m-1 (m = 2^31-1; = every generator state once) x intervals {} for generate: value in [min,max] and within rounding of the reference minstd value; real shuffle from every state for lengths {}; bands of 2^17 states at both ends of the state range: shuffle lengths 1..8,10,100,1000 and an interval grid incl. non-dyadic bounds; stride-4099 cover of all states for shuffle lengths 1..8; lengths 4096, 4097, 5000, 10^4, 65537 from the 128 extreme states and a sparse cover; lengths 2^24+3 and 2^24+4 (beyond exact usize -> f32 conversion) from the extreme states; degenerate, negative, subnormal (incl. bounds 1, 3, 5, 9 units of 2^-149) and wider-than-MAX intervals ((-3e38,3e38), (MIN,MAX), (0,MAX), ..) from the seed list and the extreme states; seed list incl. 0, m, 2^32, 2^64/48271+-2, 1.7e18, 2^63, u64::MAX; all 70 interleavings of 4+4 calls on two equal-seed generators; EVERY sequence of up to 4 (thorough: 5) calls on one generator over generate on (0,1), (2,3), (-1,1), (-5,-4) and shuffle of 2, 3, 7 elements from 4 seeds: every result in its own range / a permutation, and the last result bit-identical to that after the same history with all earlier intervals replaced by (0,1); Tensor::random over all shapes of rank 1-4 with extents <= 3. Non-trivial = every state is a distinct case", if ctx.tier.thorough() { "{(0,1),(-1,1),(0,2),(-0.5,0.5)}" } else { "{(0,1),(-1,1)}" }, if ctx.tier.thorough() { "1..8" } else { "1..2" }),
         bound: "complete over the 2^31-2 non-zero states for the listed intervals and lengths".into(),
         exhaustive: true,
         assumptions: vec![
@@ -318,6 +318,70 @@ fn interleavings(rep: &mut Report) {
     }
 }
 
+/// EVERY sequence of up to `depth` calls over a mixed alphabet (generate on four intervals, shuffle of three lengths) on
+/// one generator object: every generate result lies in its own [min,max] whatever was called before, every shuffle is a
+/// permutation, and the result of the LAST call is bit-identical to that of the same call after the canonical history
+/// (the same calls with every earlier generate interval replaced by (0,1)): the state a call sees is a function of the
+/// seed and of how many draws were made, not of the intervals or lengths asked for earlier.
+fn call_sequences(rep: &mut Report, depth: usize) {
+    const GEN: [(f32, f32); 4] = [(0.0, 1.0), (2.0, 3.0), (-1.0, 1.0), (-5.0, -4.0)];
+    const SHUF: [usize; 3] = [2, 3, 7];
+    let alphabet = GEN.len() + SHUF.len();
+    // one call; returns the observable result (value bits, or the permuted vector) or a violation text
+    fn call(g: &mut Generator, c: usize, canonical: bool) -> Result<Vec<u32>, String> {
+        if c < GEN.len() {
+            let (min, max) = if canonical { GEN[0] } else { GEN[c] };
+            let v = g.generate(min, max);
+            if !(v >= min && v <= max) {
+                return Err(format!("generate({}, {}) = {}", min, max, v));
+            }
+            Ok(vec![v.to_bits()])
+        } else {
+            let len = SHUF[c - GEN.len()];
+            let mut v: Vec<usize> = (0..len).collect();
+            g.shuffle(&mut v);
+            let mut s = v.clone();
+            s.sort_unstable();
+            if s.iter().enumerate().any(|(i, x)| i != *x) || v.len() != len {
+                return Err(format!("shuffle(0..{}) = {:?}", len, v));
+            }
+            Ok(v.iter().map(|x| *x as u32).collect())
+        }
+    }
+    for seed in [1u64, 12345, M - 1, 1_700_000_000_000_000_000] {
+        for n in 1..=depth {
+            let total = alphabet.pow(n as u32);
+            for code in 0..total {
+                let seq: Vec<usize> = (0..n).scan(code, |c, _| { let d = *c % alphabet; *c /= alphabet; Some(d) }).collect();
+                rep.states += 1;
+                rep.transitions += 2 * n as u64;
+                let case = Kv::new().put("op", "sequence").put("seed", seed).put("calls", seq.iter().map(|c| c.to_string()).collect::<Vec<_>>().join(","));
+                let run = |canonical: bool| -> Result<Vec<u32>, String> {
+                    let mut g = Generator::create(seed);
+                    let mut last = Vec::new();
+                    for (i, &c) in seq.iter().enumerate() {
+                        last = call(&mut g, c, canonical && i + 1 < n).map_err(|e| format!("call {} of {:?}: {}", i + 1, seq, e))?;
+                    }
+                    Ok(last)
+                };
+                match guard(|| (run(false), run(true))) {
+                    Err(e) => rep.violate("C18 call sequence panics", format!("seed {} calls {:?}: {}", seed, seq, crate::util::first_line(&e)), &case),
+                    Ok((Err(e), _)) | Ok((_, Err(e))) => rep.violate("C18 result outside its range / not a permutation after an earlier call", format!("seed {}: {}", seed, e), &case),
+                    Ok((Ok(a), Ok(b))) => {
+                        if a != b {
+                            rep.violate(
+                                "C18 a call's result depends on the intervals of earlier calls",
+                                format!("seed {} calls {:?} (0-3 generate on {:?}, 4-6 shuffle of {:?}): last result {:?}, after the canonical history {:?}", seed, seq, GEN, SHUF, a, b),
+                                &case,
+                            );
+                        }
+                    }
+                }
+            }
+        }
+    }
+}
+
 fn tensor_random(rep: &mut Report) {
     for rank in 1..=4usize {
         let mut idx = vec![1usize; rank];
@@ -504,6 +568,7 @@ pub fn run(ctx: &Ctx) -> Report {
         check_special(s, &mut rep);
     }
     interleavings(&mut rep);
+    call_sequences(&mut rep, if ctx.tier.thorough() { 5 } else { 4 });
     tensor_random(&mut rep);
 
     rep.evaluations = rep.transitions;
@@ -537,6 +602,7 @@ pub fn replay(_ctx: &Ctx, case: &Kv) -> Report {
         }
         "seed" => check_special(seed, &mut rep),
         "interleave" => interleavings(&mut rep),
+        "sequence" => call_sequences(&mut rep, 5),
         _ => tensor_random(&mut rep),
     }
     rep
